@@ -372,3 +372,57 @@ def sf_fixed_size(eng, st, args, kw, node):
 
 BuiltinMixin.SPEC_FUNCS.update({"lists_unchanged_except": sf_lists_unchanged_except, "Reported": sf_Reported,
                                 "fixed_size": sf_fixed_size})
+
+
+# ---- stop rule (C04): the predicate of the property statement, as a named spec function --------------------------------------
+# Stop(self, k, r): after k cycles with rates r[0..k): the cycle count reached max_cycles, or the last rate is <=
+# fitness_error, or the last `patience` changes of the rate (differences of consecutive rates; there are k-1 of them)
+# are all decreases smaller than min_delta.
+STOP_DEF = ("(__k >= __cfg.max_cycles"
+            " or (__cfg.fitness_error is not None and __r[__k - 1] <= __cfg.fitness_error)"
+            " or (__cfg.early_stopping is not None and __k - 1 >= __cfg.early_stopping.patience and"
+            " all(__r[j] - __r[j - 1] < 0 and abs(__r[j] - __r[j - 1]) < __cfg.early_stopping.min_delta"
+            " for j in range(__k - __cfg.early_stopping.patience, __k))))")
+
+
+def _stop_args(eng, st, cfg: V):
+    mc = st.read_field(cfg, "max_cycles").z
+    fe = st.read_field(cfg, "fitness_error")
+    es = st.read_field(cfg, "early_stopping")
+    esn = es.none if es.none is not None else z3.BoolVal(False)
+    pat = st._read_field_at(es.z, "patience", st.field_type("patience"))
+    md = st._read_field_at(es.z, "min_delta", st.field_type("min_delta"))
+    return [mc, fe.none if fe.none is not None else z3.BoolVal(False), fe.z, esn, pat.z, md.z]
+
+
+def sf_Stop(eng, st, args, kw, node):
+    import ast as _ast
+    self_v, k, r = args
+    cfg = eng.deref(st, st.read_field(self_v, "_config"), node)
+    a = _stop_args(eng, st, cfg)
+    el = st.seq_elems(r)
+    f = _uf("stop_at", *[x.sort() for x in a], el.sort(), z3.IntSort(), z3.BoolSort())
+    app = f(*a, el, k.z)
+    bound = [b["var"] for b in eng.ctx.bound_stack]
+    from .exprs import _mentions
+    if not any(_mentions(k.z, b) or _mentions(el, b) for b in bound):
+        key = ("stopdef", app.get_id())
+        if key not in st.axs:
+            st.axs.add(key)
+            # definitional unfolding for this ground instance
+            st.frames.append(dict(st.env))
+            st.env.update({"__k": k, "__r": r, "__cfg": cfg})
+            saved_goal = eng.goal_pos
+            eng.goal_pos = set()
+            try:
+                d = eng.truth(st, eng.eval(st, _ast.parse(STOP_DEF, mode="eval").body))
+            finally:
+                eng.goal_pos = saved_goal
+                st.frames.pop()
+            ax = app == d
+            st.assume(ax)
+            eng._axiom_ids.add(ax.get_id())
+    return _b(app)
+
+
+BuiltinMixin.SPEC_FUNCS.update({"Stop": sf_Stop})
